@@ -14,6 +14,7 @@ PROPS = {
     'C15': 'module type labels match ISO regions',
     'C07': 'EC codewords are the GF(256) polynomial remainder',
     'C02': 'block layout, interleaving, RS codewords',
+    'C18': 'embedded-image default frame geometry',
 }
 
 
@@ -97,6 +98,11 @@ MANIFEST_META = {
         'text': 'Verus proves that ecc_to_groups, data_codewords, max_bytes, missing_bits equal ISO Table 9 / the geometry formula for all 160 cells (with the consistency lemma blocks x sizes + blocks x ec = total), and that polynomials::structure lays out, for every data content, data codeword p of block b at the ISO interleaved position, EC codeword j of block b (the proved division remainder of that block) at dc + j*blocks + b, and zeros beyond the total (hence zero remainder bits before masking); all index arithmetic is proved in bounds.',
         'note': 'All-zero syndromes and the floor(ec/2) correction capacity follow from EC = data*x^ec mod g with g = prod (x - alpha^i); that algebraic step is NOT mechanised (model-level mathematics, no code involved). placement::create_matrix (hands the bit string to placement) and place_on_matrix_data are still assumed contracts.',
     },
+    'C18': {
+        'text': 'Kani proves, with a loop-free harness over the complete finite domain (40 sizes x 3 frame shapes, symbolic), that SvgBuilder::image_placement yields a frame whose side is an odd whole number of modules >= 5, below 40% of the symbol side, at least 8 modules clear of every edge (finder + separator), with n - side even (so the centred frame lies on module boundaries), non-decreasing in the version, and an image side that is a whole number between 1 and the frame side.',
+        'note': 'PARTIAL: only the default-placement table is decided. The centring / parity adjustment / size, gap, position overrides live inside SvgBuilder::image(), a function interleaving f64 arithmetic with string formatting that neither Verus nor Kani can take a contract on; those clauses are not claimed.',
+        'technique': 'Kani loop-free harness over kani::any() on the real function (appended harness module in a scratch copy)',
+    },
     'C14': {
         'category': 'other',
         'text': 'Contract part: every QRBuilder setter is proved to write exactly its field and keep all others (last value wins); build(&self) cannot change the builder and its result satisfies a postcondition over the final field values only. Structural part: a scan of /repo/src for static mut / interior mutability / globals / time / randomness must be empty. No schedule exploration exists in this technique family.',
@@ -106,8 +112,7 @@ MANIFEST_META = {
 
 _NYB = 'not yet built in this round (work in progress; will be claimed or given a final reason)'
 NOT_APPLICABLE = {
-    'C01': _NYB,     'C10': _NYB, 'C17': _NYB, 'C18': _NYB,
-    'C12': 'SVG text is built with format!/String::push_str/join and function-pointer calls; Verus has no format!/string-content reasoning and Kani on String code here is prohibitive (4 symbolic bytes > 20 min): no contract within reach can express it',
+    'C01': _NYB,     'C10': _NYB, 'C17': _NYB,     'C12': 'SVG text is built with format!/String::push_str/join and function-pointer calls; Verus has no format!/string-content reasoning and Kani on String code here is prohibitive (4 symbolic bytes > 20 min): no contract within reach can express it',
     'C13': 'pixels come out of usvg/resvg/tiny-skia/png (external crates, floating-point rasterisation); no repository function whose contract could state them and no verifier here reaches those crates',
     'C16': 'terminal renderer builds a String of multi-byte chars via push/push_str/format!; same limits as C12',
     'C19': 'the repository part is two ?-propagations around File::create/write_all/save_png; deciding file contents and fault behaviour needs contracts on std::fs/png, not on this code (Kani spike: foreign close/write unsupported)',
